@@ -139,6 +139,9 @@ def candidate_arg(data, mode, rng, spec, subset=True):
         arg = idx.copy()
         if rng.random() < 0.3:  # unsorted order / list input
             arg = np.array(rng.sample(list(arg), len(arg)))
+        if rng.random() < 0.3:  # an index *set* given with repeated entries (in any order)
+            extra = [rng.choice(list(arg)) for _ in range(rng.randint(1, 3))]
+            arg = np.array(rng.sample(list(arg) + extra, len(arg) + len(extra)))
         return arg, np.unique(idx), n
     if mode == "rows":
         if len(unl) == 0:
@@ -285,7 +288,7 @@ def gen_case(ctx, spec, rng, sizes=(4, 11)):
         return None
     b = rng.choice([1, 2, 3, max(1, len(cs) - 1), len(cs), len(cs) + 2])
     if hard:
-        b = rng.choice([2, 3, len(cs), max(2, len(cs) - 1)])
+        b = rng.choice([2, 3, len(cs), max(2, len(cs) - 1), len(cs) + 1])
     seed = rng.randrange(10**6)
     return dict(spec=spec.name, n=n, flavour=flavour, mode=mode, b=int(b), seed=seed, X=data["X"], y=data["y"],
                 candidates=cand), data, cand, cs, ncols
